@@ -4,7 +4,7 @@ import json
 import os
 
 import gen
-from core import Result, guard
+from core import Result, guard, stable
 from protocol import enc_tree, dec_tree, canon_tree, canon_sorted
 
 RULE = ("stream A: random pairs of plain-data trees over a 5-key pool (depth<=3) through IncludeField.combine_trees vs the "
@@ -326,10 +326,67 @@ def stream_b(ctx, res, n):
                 res.disagree("C18.process_includes", case, impl=got, model=r)
 
 
+def file_bytes_stream(ctx, res):
+    """well-formed include files whose BYTES start or end with what looks like white space or a byte-order mark to a text tool: BSON
+    files of every length from 5 to 48 bytes (the length prefix is the first byte: 9 = TAB, 10 = LF, 13 = CR, 32 = SPACE ...), pickle
+    files, and text files with surrounding blank lines. The load is the load of the deep-merged tree, at the root and in a nested scope."""
+    import cincoconfig as cc
+    tmp = ctx.tmpdir()
+    fmt_b = cc.ConfigFormat.get("bson")
+    s = cc.Schema(dynamic=True)
+    s.include = cc.IncludeField(startdir=tmp)
+    s.x = cc.StringField(default="base")
+    s.sub = cc.Schema(dynamic=True)
+    s.sub.include = cc.IncludeField(startdir=tmp)
+    s.sub.y = cc.StringField(default="base")
+    lengths = set()
+    for n in range(0, 44):
+        for key in ("x", "xx"):
+            inc_tree = {key: "v" * n}
+            body = fmt_b.dumps(s(), inc_tree)
+            if len(body) in lengths and key == "xx":
+                continue
+            lengths.add(len(body))
+            for scope in ("root", "nested"):
+                fn = "inc-%d-%s-%s.bson" % (n, key, scope)
+                with open(os.path.join(tmp, fn), "wb") as fp:
+                    fp.write(body)
+                doc = {"include": fn, "x": "doc"} if scope == "root" else {"sub": {"include": fn, "y": "doc"}}
+                want_scope = dict({"x": "doc"} if scope == "root" else {"y": "doc"}, **inc_tree)
+                cfg = s()
+                case = {"stream": "file-bytes", "fmt": "bson", "include_file_length": len(body), "first_byte": body[0], "scope": scope}
+                res.case(stable(case), kind="file-bytes:bson")
+                try:
+                    cfg.loads(fmt_b.dumps(cfg, doc), format="bson")
+                    got = cfg.to_tree() if scope == "root" else cfg.sub.to_tree()
+                    got = {k: v for k, v in got.items() if k in want_scope}
+                except Exception as e:  # noqa
+                    got = "raised %s: %s" % (type(e).__name__, str(e)[:80])
+                if got != want_scope:
+                    res.violate("C18:include-file-bytes", "a load naming an existing, well-formed include file is not the load of the merged tree",
+                                dict(case, got=got, want=want_scope))
+    # text formats: blank lines / a byte-order mark around a hand-written include file change nothing
+    for fmt, body in (("json", b'\n\n  {"x": "inc"}\n\n'), ("yaml", b"\n\nx: inc\n\n"), ("json", b'{"x": "inc"}'), ("yaml", b"x: inc")):
+        fn = "hand-%d.%s" % (len(body), fmt)
+        with open(os.path.join(tmp, fn), "wb") as fp:
+            fp.write(body)
+        cfg = s()
+        case = {"stream": "file-bytes", "fmt": fmt, "body": body.decode()}
+        res.case(stable(case), kind="file-bytes:" + fmt)
+        try:
+            cfg.loads(cc.ConfigFormat.get(fmt).dumps(cfg, {"include": fn, "x": "doc", "z": 1}), format=fmt)
+            got = {k: cfg.to_tree().get(k) for k in ("x", "z")}
+        except Exception as e:  # noqa
+            got = "raised %s: %s" % (type(e).__name__, str(e)[:80])
+        if got != {"x": "inc", "z": 1}:
+            res.violate("C18:include-file-bytes", "a load naming an existing, well-formed include file is not the load of the merged tree", dict(case, got=got))
+
+
 def run(ctx):
     res = Result()
     guard(res, "C18", stream_a, ctx, res, ctx.n(2000, 60000))
     guard(res, "C18", stream_b, ctx, res, ctx.n(150, 3000))
+    guard(res, "C18", file_bytes_stream, ctx, res)
     return res
 
 
